@@ -321,6 +321,10 @@ func driveLog[C any, O any](t *testing.T, eng Engine[C, O], a *Args) {
 		if res.Violation != nil {
 			v = res.Violation.Class + "|" + res.Violation.Key
 		}
+		if res.Ambiguous {
+			fmt.Fprintf(f, "end ambiguous viol %s\n", v)
+			continue
+		}
 		fmt.Fprintf(f, "end digest %016x nontrivial %v steps %d sim %d viol %s\n", res.Digest, res.NonTrivial, res.Steps, res.SimNanos, v)
 	}
 }
